@@ -27,6 +27,9 @@ type Cfg struct {
 	Shadow     bool // generated with ignore_shadow_schema_paths
 	YangFiles  []string
 	YangPath   string
+	// PathRoot returns the root path struct when the package was generated with
+	// path structs.
+	PathRoot func() interface{}
 
 	once     sync.Once
 	base     *ytypes.Schema
